@@ -305,16 +305,32 @@ def argmin_rule(ctx: Ctx, rule: str = "ARGMIN") -> None:
     ctx.check(best in assigns and nz.norm(assigns[best]).canon() == lhs and idx is not None, rule, f"{q}: best distance and index updated together", function=q,
               construct="best distance and its index are not updated together", message=f"{sorted(assigns)}", file=fi.file, node=upd)
     rets = [r for r in walk_local(fi.node) if isinstance(r, ast.Return)]
-    ctx.check(bool(rets) and all(isinstance(r.value, ast.Name) and r.value.id == idx for r in rets), rule, f"{q}: returns the index of the best candidate",
+
+    def exact_hit_guard(r):
+        """`r` sits under `<distance of this candidate> == 0` (the best so far, just updated, or the candidate's own distance inside the winning
+        branch): nothing can be closer, so the current index -- or the best index, if already updated -- is the answer."""
+        g = next((a for a in ancestors(r) if isinstance(a, ast.If) and a is not upd and a.test is not upd.test), None)
+        if g is None or not (isinstance(g.test, ast.Compare) and isinstance(g.test.ops[0], ast.Eq) and isinstance(g.test.comparators[0], ast.Constant)
+                             and g.test.comparators[0].value == 0 and any(r is x for y in g.body for x in ast.walk(y))):
+            return None
+        l = g.test.left
+        if isinstance(l, ast.Name) and l.id == best:
+            return "best"
+        if nz.norm(l).canon() == lhs and any(g is x for y in upd.body for x in ast.walk(y)):
+            return "candidate"
+        return None
+    ctx.check(bool(rets) and all((isinstance(r.value, ast.Name) and r.value.id == idx) or (isinstance(r.value, ast.Name) and r.value.id == iv and exact_hit_guard(r) is not None)
+                                 for r in rets), rule, f"{q}: returns the index of the best candidate",
               function=q, construct="does not return the index of the best candidate", message=f"{[short(r) for r in rets]}", file=fi.file, node=fi.node)
     init = [s for s in fi.node.body if isinstance(s, ast.Assign) and isinstance(s.targets[0], ast.Name) and s.targets[0].id == best]
     ctx.check(len(init) == 1 and src(init[0].value) in ("math.inf", "float('inf')", 'float("inf")'), rule, f"{q}: starts from an infinite best distance", function=q,
               construct="initial best distance is finite", message=f"{[short(s) for s in init]}", file=fi.file, node=fi.node)
     # early exit only for an exact hit
     for r in [x for x in ast.walk(loop) if isinstance(x, ast.Return)]:
-        g = next((a for a in ancestors(r) if isinstance(a, ast.If) and a is not upd), None)
+        g = next((a for a in ancestors(r) if isinstance(a, ast.If) and a is not upd and a.test is not upd.test), None)
         ok = g is not None and isinstance(g.test, ast.Compare) and isinstance(g.test.ops[0], ast.Eq) and isinstance(g.test.comparators[0], ast.Constant) \
             and g.test.comparators[0].value == 0 and isinstance(g.test.left, ast.Name) and g.test.left.id == best
+        ok = ok or exact_hit_guard(r) is not None
         ctx.check(ok, rule, f"{q}: early return only on an exact hit", function=q, construct="early return under a condition other than distance == 0",
                   message=short(getattr(g, "test", None)), file=fi.file, node=r)
 
@@ -1173,6 +1189,8 @@ def param_rebind_rule(ctx: Ctx, functions, rule: str = "REBIND") -> int:
         fi = p.functions.get(q)
         if fi is None or "plot" in q:
             continue
+        if fi.name.startswith("_") and not fi.name.startswith("__"):
+            continue            # a private helper is free to use its parameter as its counter; the rule is about what callers of the API hand in
         a = fi.node.args
         params = {x.arg for x in a.posonlyargs + a.args + a.kwonlyargs} - {"self", "cls"}
         for st in walk_local(fi.node):
